@@ -501,6 +501,16 @@ async fn run_case(root: PathBuf, ops: Vec<String>) -> Vec<String> {
                     "pdel" => http(f.web, "DELETE", &format!("/api/v1/pdelete/{key}"), None).await,
                     "publish" => http(f.web, "POST", &format!("/api/v1/publish/{key}"), Some("1")).await,
                     "get" => http(f.web, "GET", &format!("/api/v1/get/{key}"), None).await,
+                    "import" => {
+                        // the REST import endpoint of the follower: gzip of the export format, one plain value at <key>
+                        use std::io::Write;
+                        let mut node = json!({"v": "imported on the follower"});
+                        for seg in key.split('/').rev() { node = json!({"t": {seg: node}}); }
+                        let mut e = flate2::write::GzEncoder::new(Vec::new(), flate2::Compression::default());
+                        e.write_all(node.to_string().as_bytes()).expect("gz");
+                        let gz = e.finish().expect("gz");
+                        http_raw(f.web, "POST", "/api/v1/import", Some(&gz)).await.map(|(st, b)| (st, String::from_utf8_lossy(&b).into_owned()))
+                    }
                     other => panic!("fwrite {other}"),
                 };
                 match r {
